@@ -8,7 +8,7 @@ ALL_BE = [0, 1, 2, 3, 4, 5]
 
 def oracle_units(chk, progs, backends, tag, throws=False, proj=emit.KINDS_ALL, steps_fn=None, bfs_depth=6, max_confs=60,
                  check_result=True, check_post=True, check_flags=False, probe=None, check_introspect=False, check_queue=False, copy_modes=None, ser_states=None, opts=None, timeout=45, unwind=6, conf_filter=None, strats=None,
-                 bfs_steps_fn=None, extra_leaf=None, extra_pre=None, cbmc_extra=()):
+                 bfs_steps_fn=None, extra_leaf=None, extra_pre=None, cbmc_extra=(), prog_mod=None):
     for pname in progs:
         my_backends = backends
         if isinstance(pname, tuple): pname, my_backends = pname
@@ -23,6 +23,7 @@ def oracle_units(chk, progs, backends, tag, throws=False, proj=emit.KINDS_ALL, s
                 # back11 does not compile machines with an sm-internal table: same machine without it
                 for m in prog.machines: m.internal = []
                 prog.name += '_nosmint'
+            if prog_mod: prog_mod(prog)
             steps = steps_fn(prog) if steps_fn else [('ev', e) for e in prog.events]
             bsteps = bfs_steps_fn(prog) if bfs_steps_fn else [('start',)] + [('ev', e) for e in prog.events]
             confs, edges = model.bfs(prog, bsteps, max_depth=bfs_depth, max_confs=max_confs, throws=throws)
@@ -216,13 +217,15 @@ def C03(tier, seed):
     def steps_fn(prog): return [('ev', e) for e in prog.events] + [('stop',), ('start',)]
     def bsteps(prog): return [('start',)] + [('ev', e) for e in prog.events] + [('stop',)]
     progs = ['F1', 'R3', 'H2', 'H3'] + (['HIa', 'R2'] if tier == 'thorough' else [])
+    # stopped configurations are distinguished by the (stale) ids the machine was stopped in: restart from each of them
+    def stale(prog): prog.stale_key = True
     oracle_units(chk, progs, be, 'C03', proj=('E', 'X'), check_result=False, check_introspect=True, opts={'introspect': True},
-                 steps_fn=steps_fn, bfs_steps_fn=bsteps, conf_filter=lambda c: True, bfs_depth=6, max_confs=30)
+                 steps_fn=steps_fn, bfs_steps_fn=bsteps, conf_filter=lambda c: True, bfs_depth=6, max_confs=40, prog_mod=stale)
     # the ledger invariant is checked on every path of the reference for every enumerated configuration
     n = 0
     for pname in progs:
-        prog = catalog.CATALOG[pname]()
-        confs, _ = model.bfs(prog, bsteps(prog), max_depth=6, max_confs=30)
+        prog = catalog.CATALOG[pname](); stale(prog)
+        confs, _ = model.bfs(prog, bsteps(prog), max_depth=6, max_confs=40)
         for conf, script in confs:
             for st in steps_fn(prog):
                 if (st[0] == 'start') == conf.started: continue
